@@ -43,3 +43,14 @@ Definition run_clp (a : list Z) : option (list Z) :=
   | Some (Some polys) => Some (flat_map (map fval) polys)
   | _ => None
   end.
+
+(* lksel: n #regions [last_lu last_lut first_lut].. -> for every row 0..n-1 the 4 + #regions lookup
+   selector values (selectors_lookup ++ selector_ends_lookups), row-major: the constant columns the
+   real circuit commits to must be exactly these *)
+Definition run_lksel (a : list Z) : option (list Z) :=
+  let r := rdo n <- rd_nat ;; rdo regions <- rd_list c08_rd_region ;; rret (n, regions) in
+  match run_reader r a with
+  | Some (n, regions) =>
+    Some (flat_map (fun row => map fval (lookup_selectors_at (F := Fp) regions row)) (seq 0 n))
+  | None => None
+  end.
